@@ -1031,6 +1031,10 @@ static scpi_bool_t ParamSignUInt32(scpi_t * context, uint32_t * value, scpi_bool
     if (result) {
         if (SCPI_ParamIsNumber(&param, FALSE)) {
             result = ParamSignToUInt32(context, &param, value, sign);
+            if (!result) {
+                /* e.g. ".5": a number, but nothing an integer can be converted from */
+                SCPI_ErrorPush(context, SCPI_ERROR_DATA_TYPE_ERROR);
+            }
         } else if (SCPI_ParamIsNumber(&param, TRUE)) {
             SCPI_ErrorPush(context, SCPI_ERROR_SUFFIX_NOT_ALLOWED);
             result = FALSE;
@@ -1063,6 +1067,10 @@ static scpi_bool_t ParamSignUInt64(scpi_t * context, uint64_t * value, scpi_bool
     if (result) {
         if (SCPI_ParamIsNumber(&param, FALSE)) {
             result = ParamSignToUInt64(context, &param, value, sign);
+            if (!result) {
+                /* e.g. ".5": a number, but nothing an integer can be converted from */
+                SCPI_ErrorPush(context, SCPI_ERROR_DATA_TYPE_ERROR);
+            }
         } else if (SCPI_ParamIsNumber(&param, TRUE)) {
             SCPI_ErrorPush(context, SCPI_ERROR_SUFFIX_NOT_ALLOWED);
             result = FALSE;
